@@ -37,9 +37,9 @@ pub fn frame_choices(rng: &mut Rng, max_trees: usize) -> usize {
         base,
         base - 1,
         base + 1,
-        base - HUGE_FRAMES,
+        (base - HUGE_FRAMES).max(1),
         base - HUGE_FRAMES + 1,
-        base - HUGE_FRAMES - 1,
+        base.saturating_sub(HUGE_FRAMES + 1).max(1),
         base - 63,
         base - 64,
         base - 65,
